@@ -2,7 +2,7 @@
 Specification side (written from MQTT 3.1.1 / 5.0 section 4.7, not from the code):
 topic-filter grammar and the matching relation. Uses its own literals.
 -/
-import Paho.Model.Trie
+import Paho.Model.Split
 namespace Paho.Spec
 open Paho
 
